@@ -154,9 +154,19 @@ func reachWithout(from, to, avoid ssa.Instruction) bool {
 
 func init() {
 	register(&Rule{ID: "L5", Min: 30, Text: "lockset for mutex-guarded state: every access to a guarded field (cmap shard items; Subscription.closed/failureCount and every send/close on its events channel; BatchPublisher.events; Locker.locks; ChangeStore ranges/tree; presence Map) happens at a point where the owning struct's mutex is held on every path — the write lock for writes — established by a dominating Lock/RLock on the same object with no release in between, or, for unexported helpers, by every caller; constructors (fresh objects) are exempt",
+		Run: func(x *Ctx) { locksetRun(x, guardedFields) }})
+
+	register(&Rule{ID: "L5.client", Min: 4, Text: "one sync of an attachment at a time (client SDK): the sync state of a client.Attachment (changeEventReceived, lastSyncTime) is written only with Attachment.syncMu held in write mode and read with it held in some mode — Client.syncInternal builds the request from the document's checkpoint, sends it and applies the response inside that critical section, so holding the lock exclusively is what keeps two syncs of the same document from being built from the same checkpoint and both applied (a manual Sync next to the realtime loop); taken in read mode the second sync no longer waits",
 		Run: func(x *Ctx) {
+			locksetRun(x, []guardedField{{"client", "Attachment", "syncMu", []string{"changeEventReceived", "lastSyncTime"}, "sync state of one attachment"}})
+		}})
+}
+
+func locksetRun(x *Ctx, table []guardedField) {
+	{
+		{
 			total := 0
-			for _, g := range guardedFields {
+			for _, g := range table {
 				st := x.P.Named(g.Pkg + "." + g.Type)
 				if st == nil {
 					x.C.Unresolved(x.id(), g.Pkg+"."+g.Type)
@@ -282,7 +292,8 @@ func init() {
 				}
 			}
 			x.C.Count("accesses to mutex-guarded fields", total)
-		}})
+		}
+	}
 }
 
 // callersHoldMutex: fn is unexported (or a closure) and every synchronous call
